@@ -688,7 +688,11 @@ int main(void)
             printf("ok\n");
         } else if (!strcmp(w[0], "new") && n == 3) {
             DEC[di] = make_decoder(w[2]);
-            printf("%s mgau=%s\n", DEC[di] ? "ok" : "E init", DEC[di] ? DEC[di]->acmod->mgau->vt->name : "-");
+            if (DEC[di])
+                printf("ok mgau=%s frame_size=%d frame_shift=%d\n", DEC[di]->acmod->mgau->vt->name,
+                       (int)DEC[di]->acmod->fe->frame_size, (int)DEC[di]->acmod->fe->frame_shift);
+            else
+                printf("E init\n");
         } else if (DEC[di] == NULL) {
             printf("E no decoder\n");
         } else if (!strcmp(w[0], "jsgf") && n == 3) {
